@@ -297,18 +297,22 @@ End GenEq.
 
 (* ------------------------------------------------------------ the deviations are real *)
 (* float64: 3 * (1/10) = 0.30000000000000004, 3 / 10 = 0.3 *)
-Lemma divscalar_deviates_float :
-  exists (a : V2 FOps) (k : T FOps), vx (v2_Vec_DivScalar a k) <> vx (v2divs a k).
-Proof.
-  exists (mkV2 3%float 3%float), 10%float. cbn.
-  intro H. apply (f_equal Prim2SF) in H. vm_compute in H. discriminate H.
-Qed.
+Definition dev_a : V2 FOps := mkV2 3%float 3%float.
+Definition dev_k : T FOps := 10%float.
+Lemma divscalar_deviates_float : vx (v2_Vec_DivScalar dev_a dev_k) <> vx (v2divs dev_a dev_k).
+Proof. cbn. intro H. apply (f_equal Prim2SF) in H. vm_compute in H. discriminate H. Qed.
 
-(* Loft with height = 2*round at z = 0: Go gives the half-and-half mix, k_loft a NaN *)
+(* Loft with height = 2*round (= 2, 1) at the origin, profiles constant 1 and 3: the Go code
+   gives mix(1, 3, 0.5) - round = 1, k_loft gives NaN (0.5*0/0) *)
+Definition dev_s0 : Obj2 FOps := mkObj2 (fun _ => 1%float) (mkBox2 v2zero v2zero).
+Definition dev_s1 : Obj2 FOps := mkObj2 (fun _ => 3%float) (mkBox2 v2zero v2zero).
+Definition dev_p : V3 FOps := mkV3 0%float 0%float 0%float.
+Definition dev_height : T FOps := 2%float.
+Definition dev_round : T FOps := 1%float.
 Lemma loft_deviates_float :
-  exists (o : Obj3 FOps), k_loft (mkObj2 (fun _ => 1%float) (mkBox2 v2zero v2zero))
-                                 (mkObj2 (fun _ => 3%float) (mkBox2 v2zero v2zero)) 2%float 1%float = Some o /\
-    let p := mkV3 0%float 0%float 0%float in
-    sdf_LoftSDF3_Evaluate (fun _ => 1%float) (fun _ => 3%float) 0%float 1%float p = 1%float /\
-    PrimFloat.is_nan (ev3 o p) = true.
-Proof. eexists. split; [vm_compute; reflexivity|]. split; vm_compute; reflexivity. Qed.
+  sdf_LoftSDF3_Evaluate (ev2 dev_s0) (ev2 dev_s1) ((dev_height / two) - dev_round) dev_round dev_p = o1 FOps /\
+  match k_loft dev_s0 dev_s1 dev_height dev_round with
+  | Some o => PrimFloat.is_nan (ev3 o dev_p) = true
+  | None => False
+  end.
+Proof. split; vm_compute; reflexivity. Qed.
